@@ -407,3 +407,22 @@ Theorem C05_site_go_const :
       exists name ty v, ds = [GOConst name ty v] /\ go_obs_ty ty = c05_erase Go (Proofs.C05_Back.c05_go_cfg cfg) [] (ctype k).
 Proof. exact Proofs.C05_Sites.C05_site_go_const. Qed.
 Print Assumptions C05_site_go_const.
+
+Theorem C05_site_go_payload :
+  forall (uc : unicode) (cfg : go_config), go_uppercase_acronyms cfg = [] ->
+  forall (sh : eshared) (cs : list str) (sn tk : str) (t : rtype) (vsh : vshared),
+    dom_C05 t = true -> known_C05 Go (Proofs.C05_Back.c05_go_cfg cfg) [] t = None ->
+    forall st, exists v st', go_variant_of uc cfg sh cs sn tk (VTuple t vsh) st = Ok (v, st') /\
+      exists ty p, gv_content v = GCType ty p /\ go_obs_ty ty = c05_erase Go (Proofs.C05_Back.c05_go_cfg cfg) (egenerics sh) t.
+Proof. exact Proofs.C05_Sites.C05_site_go_payload. Qed.
+Print Assumptions C05_site_go_payload.
+
+Theorem C05_site_go_variant_fields :
+  forall (uc : unicode) (cfg : go_config), go_uppercase_acronyms cfg = [] ->
+  forall (sh : eshared) (name vo : str) (fields : list rfield),
+    Forall (Proofs.C05_Sites.c05_field_ok Go (Proofs.C05_Back.c05_go_cfg cfg) (egenerics sh)) fields ->
+    forall st, exists d st', go_struct_decl_of uc cfg (anon_struct sh name vo fields) st = Ok (d, st') /\
+      exists docs n gs ms, d = GOStruct docs n gs ms /\
+        map (fun mm => go_obs_ty (gm_type mm)) ms = map (fun f => c05_erase Go (Proofs.C05_Back.c05_go_cfg cfg) (egenerics sh) (fty f)) fields.
+Proof. exact Proofs.C05_Sites.C05_site_go_variant_fields. Qed.
+Print Assumptions C05_site_go_variant_fields.
